@@ -2,6 +2,7 @@
 
 from __future__ import annotations
 
+from copy import deepcopy
 from typing import TYPE_CHECKING, Any, ClassVar
 from warnings import warn
 
@@ -320,6 +321,7 @@ class ExchangeContext(DisplacementContext):
         "accessible_volume",
         "chemical_potential",
         "exchange_atoms",
+        "last_constraints",
         "number_of_exchange_particles",
         "particle_delta",
     )
@@ -334,6 +336,8 @@ class ExchangeContext(DisplacementContext):
         self.number_of_exchange_particles = 0
 
         self.accessible_volume = self.atoms.cell.volume
+
+        self.last_constraints = deepcopy(atoms.constraints)
 
         self.reset()
 
@@ -358,6 +362,9 @@ class ExchangeContext(DisplacementContext):
 
             reinsert_atoms(self.atoms, self._deleted_atoms, self._deleted_indices)
 
+            # ASE renumbers (or drops) index-based constraints when atoms are deleted
+            self.atoms.set_constraint(deepcopy(self.last_constraints))
+
         super().revert_state()
         self.reset()
 
@@ -366,6 +373,7 @@ class ExchangeContext(DisplacementContext):
         particles."""
         super().save_state()
         self.number_of_exchange_particles += self.particle_delta
+        self.last_constraints = deepcopy(self.atoms.constraints)
         self.reset()
 
     def to_dict(self) -> dict[str, Any]:
